@@ -382,6 +382,22 @@ def run(facts, cg):
             instances.append({'rule': 'R-RUNS(adjacency)', 'function': b.q, 'comparisons': [show(simplify(T.of_rvalue(b, st['rv'], 0)))[:120] for _, st in cmps]})
             if not good:
                 finding('R-RUNS', b.q, 'adjacency-predicate', 'adjacency is not `prev.offset + prev.size == next.offset`')
+    # runs are maximal: between `windows(2)` and the count, nothing but the adjacency test ends or thins the walk (a `take(n)`
+    # cuts a long run into several requests)
+    LIMITERS = ('take', 'skip', 'step_by', 'filter', 'skip_while', 'nth', 'chunks', 'min', 'clamp')
+    for b in facts.bodies.values():
+        if not b.id.startswith('bitar::archive_reader::http_reader::') or b.generated or b.raw['kind'] == 'Closure':
+            continue
+        wins = [(bi, t) for bi, t in b.calls() if 'q' in t['callee'] and callee_q(t).endswith('::windows')]
+        if not wins:
+            continue
+        for bi, t in b.calls():
+            if 'q' not in t['callee'] or callee_q(t).split('::')[-1] not in LIMITERS or not t['args']:
+                continue
+            recv = simplify(T.of_operand(b, t['args'][0]))
+            if has_call(recv, '::windows') or (callee_q(t).split('::')[-1] in ('min', 'clamp') and any(has_call(simplify(T.of_operand(b, a)), '::count') for a in t['args'])):
+                finding('R-RUNS', b.q, 'run-cut:' + callee_q(t).split('::')[-1], 'the walk over adjacent chunks is limited by %s at %s: a run longer than that is fetched with '
+                        'several requests' % (callee_q(t).split('::')[-1], t['loc']))
     # one request per run: the request in flight is given up only when the count of chunks it still covers reaches zero, and a
     # new one is built only when none is in flight
     n_drop = 0
